@@ -259,6 +259,43 @@ theorem negate_negate_id (i b s v ks) (m : Meta) (h : m.gen = false) :
       simp only [P.mt] at hgen
       exact negate_keeps_id _ b' s' v' ks' m' (by rw [hgen, h])
 
+/-! ### a model whose own variable is fixed (finding F05b, repaired)
+
+`evaluate` lets a node whose own variable has constant bounds take that constant (C03, `evalOv`).  `negate` used to hand the
+variable of an explicitly named node on as it was, so the negation of a model fixed to 1 was fixed to 1 as well; since the
+`fix:` commit it fixes the negation to the opposite constant. -/
+
+theorem negate_shape (i b s v ks) (m : Meta) :
+    ∃ s' v' ks' m', negate (.node i b s v ks m) =
+      .node (if m.gen then genId (sortById ks) (1 - v) (some (-s)) else i)
+        (if m.gen then ⟨0, 1⟩ else if b.lo = b.hi then ⟨1 - b.hi, 1 - b.lo⟩ else b) s' v' ks' m' := by
+  simp only [negate]
+  split
+  · split
+    · exact ⟨_, _, _, _, rfl⟩
+    · split
+      · exact ⟨_, _, _, _, rfl⟩
+      · split <;> exact ⟨_, _, _, _, rfl⟩
+  · exact ⟨_, _, _, _, rfl⟩
+
+/-- **the negation of a model fixed by its own variable is fixed to the opposite constant**: with the node-fixing rule of
+    `evaluate` (`evalOv`, empty dictionary) the negation evaluates to 1 − the model, whatever the children say -/
+theorem negate_fixed_top (σ : String → Int) (i b s v ks) (m : Meta) (hg : m.gen = false) (hc : b.lo = b.hi) :
+    evalOv (fun _ => none) σ (negate (.node i b s v ks m)) = 1 - evalOv (fun _ => none) σ (.node i b s v ks m) := by
+  obtain ⟨s', v', ks', m', h⟩ := negate_shape i b s v ks m
+  rw [h]
+  simp only [hg, Bool.false_eq_true, if_false, hc, if_true, evalOv, Option.getD_none]
+
+/-- … and a node that is not fixed stays not fixed: its negation is computed from the children as before -/
+theorem negate_free_top (i b s v ks) (m : Meta) (hc : ¬ b.lo = b.hi) :
+    ¬ (negate (.node i b s v ks m)).bnd.lo = (negate (.node i b s v ks m)).bnd.hi := by
+  obtain ⟨s', v', ks', m', h⟩ := negate_shape i b s v ks m
+  rw [h]
+  simp only [P.bnd]
+  split
+  · simp
+  · simp [hc]
+
 /-- non-vacuity: the D1 witness negated twice is true again where it was true, and is still called "T" -/
 example :
     let t : P := .node "T" ⟨0,1⟩ 1 2 [.node "B" ⟨0,1⟩ 1 1 [.leaf "a" ⟨0,1⟩, .leaf "b" ⟨0,1⟩] {}, .leaf "b" ⟨0,1⟩, .leaf "c" ⟨0,1⟩] {}
